@@ -405,8 +405,9 @@ class ACond:
 
 
 class AOpq:
-    def __init__(self, why=""):
+    def __init__(self, why="", notnone=False):
         self.why = why
+        self.notnone = notnone
 
     def __repr__(self):
         return f"AOpq({self.why})"
@@ -666,10 +667,10 @@ class Interp:
     def wire(self, name: str, n: int, kind="ba") -> ABits:
         return ABits([self.atom_form((name, i)) for i in range(n)], kind)
 
-    def opaque(self, why: str) -> AOpq:
+    def opaque(self, why: str, notnone: bool = False) -> AOpq:
         if len(self.opaque_log) < 200:
             self.opaque_log.append(why)
-        return AOpq(why)
+        return AOpq(why, notnone)
 
     # ---- decisions
     def decide_eq(self, forms_msb, const: int, label: str) -> bool:
@@ -1425,7 +1426,10 @@ class Frame:
         return d
 
     def ev_JoinedStr(self, n):
-        return self.I.opaque("f-string")
+        for v in n.values:
+            if isinstance(v, ast.FormattedValue):
+                self.ev(v.value)  # evaluated for its effects / errors
+        return self.I.opaque("f-string", notnone=True)
 
     def ev_Lambda(self, n):
         return self.I.opaque("lambda")
